@@ -92,8 +92,8 @@ claim("C06",
 claim("C16",
       "Bounded model checking of the real parse_response on semi-concrete wire images: a complete response returns status, success flag and "
       "exactly the body bytes that followed the header block (all body byte values); a response cut at every offset inside its head is an "
-      "error. KNOWN FINDING pinned by its own harness: a body shorter than the declared Content-Length is returned as success. Partial: one "
-      "header, bodies <= 3 bytes; sockets, time-outs and hangs (tokio) are outside.",
+      "error; a body shorter than the declared Content-Length is an error (defect found, repaired in 8e20dd1). Partial: one "
+      "header, bodies <= 1 byte in the quick tier; sockets, time-outs and hangs (tokio) are outside.",
       "format! in error paths is stubbed (message text irrelevant). Trusted: Kani's String/Vec models.",
       "DESIGN.md §4/C16")
 claim("C29",
@@ -104,9 +104,10 @@ claim("C29",
       "Only Kani's own checks count for C29; the owners' functional assertions are ignored in these re-runs.",
       "DESIGN.md §4/C29")
 claim("C36",
-      "Bounded model checking of LIKE: the real general matcher like_match and the per-batch fast path classify_like(p).matches(t) equal the "
-      "textbook LIKE definition for all texts over {a,b,c} and patterns over {a,b,%,_} up to length 2x2 and 3x3 (quick) and all remaining "
-      "length pairs <= 3 (thorough). Partial: every other scalar function takes/returns Arrow arrays (regex, chrono, serde_json, sha2 ...) "
+      "Bounded model checking of LIKE: the real general matcher like_match equals the textbook LIKE definition for all texts over {a,b,c} "
+      "and patterns over {a,b,%,_} with text length <= 3 and pattern length <= 3 (text 3 x pattern 0/1 thorough). The per-batch fast path "
+      "(classify_like + str::contains/starts_with/ends_with) did not finish within the caps (std's two-way searcher) and is NOT claimed."
+      " Partial: every other scalar function takes/returns Arrow arrays (regex, chrono, serde_json, sha2 ...) "
       "and is NOT claimed.",
       "Oracle = dynamic-programming definition of LIKE in the harness. ASCII only; escapes outside.",
       "DESIGN.md §4/C36")
@@ -117,7 +118,7 @@ claim("C42",
       "DESIGN.md §4/C42")
 
 # checks listed here are registered in MANIFEST.json; a claim above that is not listed is pending
-REGISTERED = ["C02", "C05", "C11", "C21", "C26", "C33", "C38", "C41", "C42"]
+REGISTERED = ["C02", "C05", "C06", "C11", "C16", "C21", "C26", "C29", "C33", "C36", "C38", "C41", "C42"]
 
 NOT_APPLICABLE = {
     "C01": "whole pipeline parse->bind->optimise->plan->execute over Arrow batches with DuckDB as oracle: async, Arrow kernels, HashMap-heavy binder; no bounded kernel carries the claim (DESIGN §5).",
@@ -156,10 +157,6 @@ NOT_APPLICABLE = {
 
 # properties whose harnesses exist but are not yet registered (registered only once conclusive on the unchanged tree)
 PENDING = {
-    "C06": "pending registration: harness/C06 (one chunk step, 1 row) is being validated.",
-    "C16": "pending registration: harness/C16 (semi-concrete parse_response) is being validated.",
-    "C29": "pending: panic-freedom re-runs of the kernels above are registered after those are.",
-    "C36": "pending registration: LIKE harness being validated.",
 }
 
 
